@@ -222,6 +222,47 @@ func checkC04(c *hx.Checker) {
 			jobs = append(jobs, newJob("Gemm", attrs, []*ref.T{A, B, C}, []*ref.T{exp}, err, hx.DCompute, hx.Dot, "op", nil, fmt.Sprintf("large %v tA=%v", big, tA), "large"))
 		}
 	}
+	// extreme alpha / beta with operands scaled so that the true result stays an ordinary float32 although
+	// alpha*A, alpha*B or beta*C alone would overflow or become subnormal
+	scaleT := func(t *ref.T, f float64) *ref.T {
+		return ref.Fill(t.DT, t.Shape, func(i int) float64 { return t.F(i) * f })
+	}
+	for _, ab := range [][2]float32{{1e30, 1}, {-1e30, 0}, {1e-30, 1e-30}, {1.7e-38, 1}, {1, 1e30}, {1e30, 1e30}, {3e-39, 1}} {
+		for _, sc := range [][3]float64{{1e10, 1e-10, 1}, {1e-10, 1e10, 1}, {1, 1, 1}, {1e10, 1e-10, 1e-10}} {
+			for _, tA := range []bool{false, true} {
+				for _, tB := range []bool{false, true} {
+					for _, withC := range []bool{false, true} {
+						M, K, N := 2, 3, 2
+						ash, bsh := []int{M, K}, []int{K, N}
+						if tA {
+							ash = []int{K, M}
+						}
+						if tB {
+							bsh = []int{N, K}
+						}
+						A, B := scaleT(linFill(ref.F32, ash, 2), sc[0]), scaleT(linFill(ref.F32, bsh, 5), sc[1])
+						var C *ref.T
+						if withC {
+							C = scaleT(linFill(ref.F32, []int{N}, 8), sc[2])
+						}
+						if float64(ab[1])*sc[2] > 1e35 || (ab[0] == 3e-39 && sc[0] != 1) {
+							continue
+						}
+						attrs := []hx.Attr{hx.AFloat("alpha", ab[0]), hx.AFloat("beta", ab[1])}
+						if tA {
+							attrs = append(attrs, hx.AInt("transA", 1))
+						}
+						if tB {
+							attrs = append(attrs, hx.AInt("transB", 1))
+						}
+						exp, err := ref.Gemm(A, B, C, ab[0], ab[1], tA, tB)
+						jobs = append(jobs, newJob("Gemm", attrs, []*ref.T{A, B, C}, []*ref.T{exp}, err, hx.DCompute, hx.Dot, "op", nil,
+							fmt.Sprintf("extreme-scale ab=%v sc=%v tA=%v tB=%v C=%v", ab, sc, tA, tB, withC), "extreme-scale"))
+					}
+				}
+			}
+		}
+	}
 	c.Extra["discrimination"] = map[string]int{"gemm_cases": gemmCases, "differs_if_trans_flags_flipped": discTrans, "differs_if_alpha_beta_swapped": discAB}
 	if discTrans < gemmCases/4 || discAB < gemmCases/4 {
 		hx.HarnessError("Gemm fills are not discriminating (trans %d, alpha/beta %d of %d)", discTrans, discAB, gemmCases)
